@@ -126,8 +126,17 @@ def report(pid, spec, tier, seed, bld, queries, results, findings, pre, t0, a):
             except Exception as e:  # replay is best effort; the solver verdict stands
                 rec['native_replay'] = {'status': 'error', 'detail': str(e)}
             json.dump(rec, open(path, 'w'), indent=1)
+            seen, lines = set(), []
             for x in r['violations']:
-                print('    failed obligation: %s' % x['desc'])
+                if x['desc'] not in seen:
+                    seen.add(x['desc'])
+                    lines.append(x['desc'])
+            # property-level obligations first; everything after the first undefined behaviour is noise
+            lines.sort(key=lambda d: 0 if re.match(r'C\d\d', d) else 1)
+            for d in lines[:12]:
+                print('    failed obligation: %s' % d)
+            if len(lines) > 12:
+                print('    ... and %d more failed obligations (all listed in the replay file)' % (len(lines) - 12))
             print('VIOLATION property=%s replay=%s' % (pid, path))
         elif r['status'] != 'pass':
             bad.append(r)
